@@ -405,8 +405,11 @@ def disregistry(ctx):
         disl.atoms.pos = pos + symarray('wrapped', (len(pos), 3), real=True)
         calls = []
 
-        def displacement(a, b, *args, **kw):
-            calls.append((a, b, args, kw))
+        def displacement(system_0=None, system_1=None, box_reference='final', *args, **kw):
+            # the real signature (system_0, system_1, box_reference='final'): positional or by keyword
+            if box_reference != 'final':
+                kw = dict(kw, box_reference=box_reference)
+            calls.append((system_0, system_1, args, kw))
             return D
 
         def unique(a):
